@@ -737,6 +737,8 @@ def equal(I, a, b):
         return a == b
     if isinstance(a, (ClassVal,)) and isinstance(b, ClassVal):
         return a.ci is b.ci
+    if isinstance(a, Opaque) and isinstance(b, Opaque) and (a.attrs.get("__identity_eq__") or b.attrs.get("__identity_eq__")):
+        return a is b            # declared by the harness: objects of a class that does not define __eq__ (e.g. nn.Module)
     if type(a) is not type(b) and not (is_z3(a) or is_z3(b)):
         return False
     raise Unsupported(f"equality on {type(a).__name__}, {type(b).__name__}")
